@@ -615,6 +615,7 @@ def bounded_text_roundtrip(reg, tier, seed):
         rt = RoundTrip()
         evals, failures, seen, samples = 0, [], set(), []
         stats = {"mined": 0, "not_mined": 0, "discarded_noncanonical": 0, "unencodable": 0}
+        packed_seen = set()
         tmpls = sorted(msggen.templates(), key=lambda t: t.name)
         reps = 2 if tier == "quick" else 8
         sub_reps_bytes, sub_reps_int = (24, 4) if tier == "quick" else (300, 30)
@@ -657,6 +658,12 @@ def bounded_text_roundtrip(reg, tier, seed):
                        "with_template": with_template, "direction": m2.direction.name, "datagram": data.hex()}
                 if len(samples) < 3 and text and rng.random() < 0.01:
                     samples.append(dict(inp, text=str(text)[:600]))
+                if beautify and text:
+                    for sk, (s0, s1) in getattr(text, "spans", {}).items():
+                        if (sk[0], sk[1], sk[3]) in packed_seen:
+                            continue
+                        if str.__getitem__(text, slice(s0, s1)).startswith(f"  {sk[3]} =| "):
+                            packed_seen.add((sk[0], sk[1], sk[3]))
                 for key, clause, observed, txt in fs:
                     if nonfinite is not None and key in ("text-roundtrip/parse-raises", "text-roundtrip/body-differs"):
                         key = f"text-roundtrip/nonfinite-float/{nonfinite}"
@@ -739,7 +746,9 @@ def bounded_text_roundtrip(reg, tier, seed):
                         "distinct = distinct (template, count mode, beautify, table kind, annotation, rendered text)",
                 "bounded": True,
                 "bounds": {"reps": reps, "subfield_payloads_mined": stats["mined"], "subfield_payloads_not_mined": stats["not_mined"],
-                           "fields_with_mined_payloads": mined_fields, "discarded_noncanonical_subfield": stats["discarded_noncanonical"],
+                           "fields_with_mined_payloads": mined_fields,
+                           "subfield_serializers_rendered_packed": f"{len(packed_seen)} of {len(se_.SUBFIELD_SERIALIZERS)}",
+                           "subfield_serializers_never_rendered_packed": sorted(".".join(k) for k in se_.SUBFIELD_SERIALIZERS if k not in packed_seen), "discarded_noncanonical_subfield": stats["discarded_noncanonical"],
                            "unencodable_generated": stats["unencodable"]},
                 "samples": samples, "failures": failures}
     finally:
